@@ -95,9 +95,12 @@ class SQLStorage(Storage):
         elif isinstance(checker, StringExactChecker):
             return cur.filter(
                 PolicyModel.type == TYPE_STRING_BASED,
-                PolicyModel.actions.any(PolicyActionModel.action_string == inquiry.action),
-                PolicyModel.resources.any(PolicyResourceModel.resource_string == inquiry.resource),
-                PolicyModel.subjects.any(PolicySubjectModel.subject_string == inquiry.subject))
+                PolicyModel.actions.any(
+                    PolicyActionModel.action_string.in_(self._exact_spellings(inquiry.action))),
+                PolicyModel.resources.any(
+                    PolicyResourceModel.resource_string.in_(self._exact_spellings(inquiry.resource))),
+                PolicyModel.subjects.any(
+                    PolicySubjectModel.subject_string.in_(self._exact_spellings(inquiry.subject))))
         elif isinstance(checker, RegexChecker):
             if not self._supports_regex_operator():
                 return cur.filter(PolicyModel.type == TYPE_STRING_BASED)
@@ -135,6 +138,14 @@ class SQLStorage(Storage):
         else:
             log.error('Provided Checker type is not supported.')
             raise UnknownCheckerType(checker)
+
+    @staticmethod
+    def _exact_spellings(value):
+        """
+        Stored spellings that StringExactChecker matches against the value:
+        the value itself and the value enclosed in the policy tags.
+        """
+        return [value, '<%s>' % value]
 
     def _supports_regex_operator(self):
         """
